@@ -83,6 +83,10 @@ def real_load(path, name):
         return [], None, "%s: %s" % (type(ex).__name__, ex)
 
 
+def conv_bytes(x):
+    return [conv_bytes(y) for y in x] if isinstance(x, list) else e(x)
+
+
 def abstract_view_cs(cd):
     """what harness/umlsynth.abstract_cs computes (the diagram as LanguageCsharp renders it), as bytes (the shape of ub_adaptor_cs's reply)"""
     from . import umlsynth
